@@ -277,6 +277,14 @@ def make_trees(rng, thorough, maxlvl):
         out.append((S2, 'Doc', chain(S2, 'Doc', 'sub', n, {'title': b'q"q'}), 'deep-escaped-string'))
         out.append((S2, 'Doc', chain(S2, 'Doc', 'sub', n, {'vu8': [1]}), 'deep-vector'))
         out.append((S1, 'Rec', chain(S1, 'Rec', 'r', n, {'k': []}), 'deep-vector'))
+    # the same chains built with the generated BUILDER API (no parser on the way in): at maxlvl - 1 tables everything fits only when the
+    # innermost table holds scalars; a vector / an escaped string there needs one frame more than the parser's limit (finding parser-frame-limit)
+    for n in (maxlvl - 2, maxlvl - 1):
+        if n < 1: continue
+        for what in (0, 1):
+            out.append((S1, 'Rec', chain(S1, 'Rec', 'r', n, {'k': []} if what == 1 else {'n': 5}), 'built-deep', (n, what)))
+        for what, bottom in ((0, {'i32': 5}), (1, {'vu8': []}), (2, {'title': b'q"q'}), (3, {'names': []})):
+            out.append((S2, 'Doc', chain(S2, 'Doc', 'sub', n, bottom), 'built-deep', (n, what)))
     # random trees
     nrand = 260 if thorough else 70
     for i in range(nrand):
@@ -287,7 +295,7 @@ def make_trees(rng, thorough, maxlvl):
 
 
 PRINTER_BITS = [0, 1, 2, 3, 4, 8, 5, 9, 6, 10, 12, 13, 16, 17, 18, 32, 34, 20, 40, 63]
-INDENTS = [-1, 0, 1, 2, 3, 8, 255]
+INDENTS = [-1, 0, 1, 2, 3, 8]
 PARSER_FLAGS = [0, 2, 1, 4, 3, 6, 24, 31]
 
 
@@ -295,8 +303,12 @@ def settings_for(rng, klass, k):
     """(printer bits, indent, parser flags) combinations for the k-th tree"""
     if klass in ('presence-subsets', 'all-defaults', 'empty'):
         return [(pb, ind, pf) for pb in (0, 4, 8, 12, 2, 33) for ind, pf in ((-1, 0), (1, 2))] + [(1, -1, 0), (6, 2, 0), (10, -1, 2), (16, -1, 3)]
+    if klass == 'built-deep':
+        return [(0, -1, 0), (2, 1, 2)]
     if klass.startswith('deep'):
-        return [(0, -1, 0), (2, -1, 2), (3, 2, 0), (18, -1, 4)]
+        return [(0, -1, 0), (3, 1, 2)] if k % 2 else [(2, -1, 2), (18, -1, 4)]
+    if klass in ('vectors', 'empty-vectors', 'enums'):
+        return [(0, -1, 0), (0, 255, 2), (2, -1, 0), (2, 2, 2), (1, -1, 0), (3, 1, 2), (rng.choice(PRINTER_BITS), 255, rng.choice(PARSER_FLAGS))]
     base = [(0, -1, 0), (0, -1, 2), (2, -1, 0), (2, 2, 2), (1, -1, 0), (3, 1, 2)]
     for _ in range(3):
         base.append((rng.choice(PRINTER_BITS), rng.choice(INDENTS), rng.choice(PARSER_FLAGS)))
@@ -362,11 +374,12 @@ def round_trip_check(ctx, cases):
     for sn, idx in by_suite.items():
         suite = cases[idx[0]][0]
         H = build_harness(ctx, suite)
-        reqs = ['rt %s %d %d %d %s' % (cases[i][1], cases[i][4], cases[i][5], cases[i][6], hx(src_json(suite, cases[i][1], cases[i][2]))) for i in idx]
+        reqs = [('deep %s %d %d %d %d %d' % (cases[i][1], cases[i][4], cases[i][5], cases[i][6], cases[i][7][0], cases[i][7][1])) if len(cases[i]) > 7 else
+                ('rt %s %d %d %d %s' % (cases[i][1], cases[i][4], cases[i][5], cases[i][6], hx(src_json(suite, cases[i][1], cases[i][2])))) for i in idx]
         for i, q, r in zip(idx, reqs, U.run_resilient(H, reqs)): creps[i] = (q, r)
     mreqs = []
     for c, (q, rep) in zip(cases, creps):
-        suite, root, tree, klass, pbits, indent, pflags = c
+        suite, root, tree, klass, pbits, indent, pflags = c[:7]
         f = rep.split()
         b0 = f[10] if f[:1] == ['RT'] and len(f) >= 11 else '-'
         b1 = f[8] if f[:1] == ['RT'] and len(f) >= 11 else '-'
@@ -374,8 +387,9 @@ def round_trip_check(ctx, cases):
                                                                suite.descriptor(), enum_descriptor(suite), model_tree(suite, root, tree), b0, b1))
     mreps = run_model_big_stack(ctx, mreqs) if mreqs else []
     for c, (q, rep), mrep in zip(cases, creps, mreps):
-        suite, root, tree, klass, pbits, indent, pflags = c
-        src = src_json(suite, root, tree)
+        suite, root, tree, klass, pbits, indent, pflags = c[:7]
+        built = len(c) > 7          # B0 comes from the builder API (no source document, no parser limit on the way in)
+        src = b'(built with the generated builder API: chain of %d tables, bottom kind %d)' % c[7] if built else src_json(suite, root, tree)
         fl = api_flags(pbits, indent)
         replay = {'harness': 'c05b_rt_' + suite.name, 'harness_line': q if len(q) < 6000 else q[:6000] + '...', 'root': root, 'printer_bits': pbits, 'indent': indent,
                   'parser_flags': pflags, 'source_json': src[:1500].decode('latin-1'), 'class': klass, 'c_reply': rep[:600], 'model_reply': mrep[:600]}
@@ -432,6 +446,12 @@ def round_trip_check(ctx, cases):
                     bad('strict-json', 'quoted output is not accepted by python json.loads: %s' % e)
         # ---- parsing
         sym = has_symbol(suite, root, tree, pbits)
+        if p1 != 0 and not fits and built and m[1:2] == ['ERR'] and (str(perr), str(ploc)) == (m[2], m[3]):
+            # FINDING (C05_round_trip_beyond_level_limit_refuted): B0 verifies and prints, its text is refused for the builder frame limit
+            stats['frame_limit'] = stats.get('frame_limit', 0) + 1
+            stats.setdefault('frame_limit_replays', []).append({'harness_line': q, 'needs_levels': need + 1, 'maxlvl': maxlvl, 'c_reply': rep[:300], 'model_reply': mrep[:200],
+                                                                 'printed_tail': t1[-60:].decode('latin-1')})
+            continue
         if p1 != 0 and fits:
             bad('reparse-fails', 'the printed text of a tree that needs %d <= %d levels is rejected by the generated parser: error %d at %d' % (need + 1, maxlvl, perr, ploc)); continue
         if p1 == 0 and v1 != 0:
@@ -481,20 +501,48 @@ def reprint_expected(fl, pflags, suite, root, tree):
 
 
 def c05b_hook(ctx, n=None):
-    """Entry point for checks/c05.py (after ctx.check_theorems(prop_module='Properties_C05b'))."""
+    """Entry point for checks/c05.py (after ctx.check_theorems(prop_module='Properties_C05b')).  Returns True when ctx.replay_in names a record
+    of this layer (it is replayed here), else the statistics."""
+    if ctx.replay_in:
+        rp = json.load(open(ctx.replay_in))
+        if not str(rp.get('harness', '')).startswith('c05b_rt_'): return None
+        suite = B.SUITE_C04 if rp['harness'].endswith('c04') else B.SUITE_B4
+        line = rp.get('harness_line', '')
+        rep = U.run_resilient(build_harness(ctx, suite), [line])[0]
+        ctx.log('replay request:', line[:300]); ctx.log('implementation reply:', rep[:600])
+        ctx.log('recorded implementation reply:', str(rp.get('c_reply', ''))[:600]); ctx.log('recorded model reply:', str(rp.get('model_reply', ''))[:300])
+        ctx.count(line, klass='replay')
+        f = rep.split()
+        same = rep[:600] == str(rp.get('c_reply', ''))[:600]
+        if same or rep.startswith(('CRASH', 'HANG')) or (f[:1] == ['RT'] and len(f) > 3 and f[3] != '0'):
+            ctx.violation(rp.get('key', 'replay'), 'replayed: the implementation answers as recorded: ' + rep[:200], {'harness': rp['harness'], 'harness_line': line, 'c_reply': rep[:600]})
+        ctx.finish_args = dict(rule='replay of one recorded request', explanation='replay')
+        return True
     rng = ctx.rng
     maxlvl = B.parse_max_levels() or 100
     trees = make_trees(rng, ctx.thorough, maxlvl)
     if n is not None: trees = trees[:n]
     cases = []
-    for k, (suite, root, tree, klass) in enumerate(trees):
+    for k, tr in enumerate(trees):
+        suite, root, tree, klass = tr[:4]
         for pb, ind, pf in settings_for(rng, klass, k):
-            cases.append((suite, root, tree, klass, pb, ind, pf))
+            cases.append((suite, root, tree, klass, pb, ind, pf) + tuple(tr[4:5]))
     mism, stats = round_trip_check(ctx, cases)
     for c in cases:
         ctx.count(('c05b:%s:%s:%d:%d:%d:' % (c[0].name, c[1], c[4], c[5], c[6])).encode() + src_json(c[0], c[1], c[2]), klass='document:' + c[3])
     for m in mism:
         ctx.violation('corr:document:' + m['key'], m['what'], m['replay'])
+    if stats.get('frame_limit'):
+        # C05_round_trip_beyond_level_limit_refuted replayed on the C code (fixes/C05-parser-frame-limit.md).  Reported as a violation (printed as
+        # KNOWN-FINDING) once the key is registered in known_findings.txt; until then it is recorded in the evidence notes with its replay.
+        rp = stats['frame_limit_replays'][0]
+        what = ('a verified buffer (%d nested tables, the innermost holding a vector / an escaped string) is printed, and the generated parser rejects the printed text with '
+                '`runtime`: it needs builder level %d > FLATCC_JSON_PARSE_MAX_LEVELS = %d; %d such cases' % (rp['needs_levels'] - 2, rp['needs_levels'], rp['maxlvl'], stats['frame_limit']))
+        if ('C05', 'parser-frame-limit') in lib.load_findings()[0]:
+            ctx.violation('parser-frame-limit', what, rp)
+        else:
+            ctx.notes.append('FINDING parser-frame-limit (not registered in known_findings.txt, see fixes/C05-parser-frame-limit.md): ' + what + '; replay: ' + rp['harness_line'])
+    stats.setdefault('frame_limit', 0)
     ctx.notes.append('document layer: %(cases)d print/parse round trips, %(compared_text)d printed texts compared byte for byte with print_root, %(compared_parse)d parses compared '
                      'with parse_root, %(symbolic)d with enum symbols (parser model outside its fragment: text only), %(source_refused)d sources beyond the level limit, '
                      '%(strict)d strict documents judged by rfc8259_document and json.loads' % stats)
